@@ -48,9 +48,11 @@ func NewOrderedPartition(n, m int, vertexClasses [][]int) *CanonicalOrderedParti
 			for j := range vertexClasses[i] {
 				v := vertexClasses[i][j]
 				order[index] = v
-				inCell[v] = j
+				inCell[v] = i
 				index++
 			}
+			//The order must be sorted within each bin.
+			ints.Sort(order[index-len(vertexClasses[i]) : index])
 			binDividers[i] = index
 		}
 	}
@@ -59,8 +61,11 @@ func NewOrderedPartition(n, m int, vertexClasses [][]int) *CanonicalOrderedParti
 	for i := range binAges {
 		binAges[i] = 0
 	}
-	binsToCheck := make([]int, 1, n)
-	binsToCheck[0] = 0
+	//Every initial bin could shatter another bin.
+	binsToCheck := make([]int, len(binDividers), n)
+	for i := range binsToCheck {
+		binsToCheck[i] = i
+	}
 	value := make([]int, 0, m)
 	return &CanonicalOrderedPartition{order: order, binDividers: binDividers, binAges: binAges, binsToCheck: binsToCheck, value: value, inCell: inCell}
 }
@@ -98,9 +103,11 @@ func (op *CanonicalOrderedPartition) Reset(n, m int, vertexClasses [][]int) {
 			for j := range vertexClasses[i] {
 				v := vertexClasses[i][j]
 				op.order[index] = v
-				op.inCell[v] = j
+				op.inCell[v] = i
 				index++
 			}
+			//The order must be sorted within each bin.
+			ints.Sort(op.order[index-len(vertexClasses[i]) : index])
 			op.binDividers[i] = index
 		}
 	}
@@ -110,9 +117,10 @@ func (op *CanonicalOrderedPartition) Reset(n, m int, vertexClasses [][]int) {
 		op.binAges[i] = 0
 	}
 
-	if n > 0 {
-		op.binsToCheck = op.binsToCheck[:1]
-		op.binsToCheck[0] = 0
+	//Every initial bin could shatter another bin.
+	op.binsToCheck = op.binsToCheck[:len(op.binDividers)]
+	for i := range op.binsToCheck {
+		op.binsToCheck[i] = i
 	}
 
 	op.value = op.value[:0]
@@ -514,7 +522,7 @@ func CanonicalIsomorphAllocated(n, m int, neighbours [][]int, op *CanonicalOrder
 
 	//Handle the special case where m = 0.
 	//TODO: Check if this is necessary.
-	if m == 0 {
+	if m == 0 && len(op.binDividers) == 1 {
 		//Return the identity permutation.
 		perm := storage.currentBestPerm[:n]
 		for i := 0; i < n; i++ {
@@ -589,6 +597,8 @@ func CanonicalIsomorphAllocated(n, m int, neighbours [][]int, op *CanonicalOrder
 
 	//Split the partition.
 	//We split here and at the end of the loop so we can easily handle the CheckViable option. It wouldn't be hard to check it the other way but might require a
+	//If the vertex classes begin with singletons, these are already part of the value.
+	op.expandValue(neighbours, currentBest, firstLeaf)
 	worse := equitableRefinementProcedure(neighbours, op, dws, nbs, space, timesSeen, maxCell, numberOfMax, currentBest, firstLeaf, options)
 	if options.CheckViability {
 		//Disable the check for any further iterations
@@ -601,7 +611,7 @@ func CanonicalIsomorphAllocated(n, m int, neighbours [][]int, op *CanonicalOrder
 		if !worse && len(op.binDividers) == n {
 			count++
 			//Are we the new best?
-			if comp := ints.Compare(op.value, currentBest); comp == 1 {
+			if comp := ints.Compare(op.value, currentBest); comp == 1 || count == 1 {
 				currentBest = currentBest[:m]
 				copy(currentBest, op.value)
 				copy(currentBestPath, path)
